@@ -1,6 +1,7 @@
 package mon
 
 import (
+	"encoding/base64"
 	"fmt"
 	"net/url"
 	"strings"
@@ -122,6 +123,7 @@ func c05Run(c *run.Ctx, ci int, k c05Case) {
 	w.AddClient(world.ClientSpec{ID: "c5-norefresh", Secret: "s5n", RedirectURIs: []string{"https://c5n.example/cb"}, GrantTypes: grants[:4], ResponseTypes: world.AllResponseTypes, Scopes: registered, Audience: allAud})
 	w.AddClient(world.ClientSpec{ID: "C5-FULL", Secret: "s5U", RedirectURIs: []string{"https://c5u.example/cb"}, GrantTypes: grants, ResponseTypes: world.AllResponseTypes, Scopes: registered, Audience: allAud})
 	w.AddClient(world.ClientSpec{ID: "C5-NOREFRESH", Secret: "s5NU", RedirectURIs: []string{"https://c5nu.example/cb"}, GrantTypes: grants, ResponseTypes: world.AllResponseTypes, Scopes: registered, Audience: allAud})
+	w.AddClient(world.ClientSpec{ID: "c5-pub", Public: true, RedirectURIs: []string{"https://c5p.example/cb"}, GrantTypes: grants, ResponseTypes: world.AllResponseTypes, Scopes: registered, Audience: allAud})
 	w.AddClient(world.ClientSpec{ID: "c5-other", Secret: "s5o", RedirectURIs: []string{"https://c5o.example/cb"}, GrantTypes: grants, ResponseTypes: world.AllResponseTypes, Scopes: registered, Audience: allAud})
 	s := sim.New(w, c, "refresh-cross-client", "refresh-issued-against-rule", "payload", "refresh-after-registration-narrowed", "rightful-refresh-refused", "refresh-without-client-grant", "dead-unexpected", "requested-scope-changed", "requested-audience-changed")
 	caseID := fmt.Sprint(ci)
@@ -258,6 +260,12 @@ func c05Run(c *run.Ctx, ci int, k c05Case) {
 		if ci%3 == 0 {
 			// a different registered client whose id differs from the owner's in letter case only
 			as = strings.ToUpper(k.Client)
+		}
+		if ci%3 == 1 {
+			// a public client that identifies itself in the Authorization header (empty password) and names the owner in the body
+			as = "c5-pub"
+			s.AuthFor = map[string]world.Auth{"c5-pub": {Mode: "raw", RawHeader: "Basic " + base64.StdEncoding.EncodeToString([]byte("c5-pub:"))}}
+			form.Set("client_id", k.Client)
 		}
 	}
 	tok := g.Latest
